@@ -134,6 +134,9 @@ def write_json(doc):
     if order:
         fss = [fss[k] for k in order]
     views = {name: {"%SOFA": i, "%MEMBERS": sorted(doc["members"].get(i, []))} for (i, n, name, text) in doc["sofas"]}
+    for name in doc.get("views_only", []):
+        # a view that is only declared in the views section (no sofa feature structure)
+        views[name] = {"%SOFA": None, "%MEMBERS": []}
     return json.dumps({"%TYPES": {}, "%FEATURE_STRUCTURES": fss, "%VIEWS": views})
 
 
@@ -161,6 +164,10 @@ def gen_doc(rng):
     n_el = nsofa + nfs
     if rng.random() < 0.6:
         doc["order"] = rng.sample(range(n_el), n_el)
+    if rng.random() < 0.3:
+        doc["views_only"] = ["extra1"] if rng.random() < 0.7 else ["extra1", "extra2"]
+        # make the small ids busy, so that a generator that was not reseeded collides
+        doc["fs"] = [(i, b, e, s) for (i, b, e, s) in doc["fs"]]
     return doc
 
 
@@ -198,10 +205,10 @@ def doc_history(rng, out, k):
     A = ts.get_type("uima.tcas.Annotation")
     start = rng.choice(["empty", "xmi", "json"])
     doc = gen_doc(rng)
-    steps = [rng.choice(["add_keep", "add_new", "add_all", "create_view", "to_xmi", "to_json", "reload_xmi", "reload_json", "force"])
+    steps = [rng.choice(["add_keep", "add_new", "add_all", "create_view", "to_xmi", "to_json", "reload_xmi", "reload_json", "force", "force_next"])
              for _ in range(rng.randint(2, 12))]
     if rng.random() < 0.85:
-        steps = [s for s in steps if s != "force"]
+        steps = [s for s in steps if not s.startswith("force")]
     sc = {"k": "dochist", "start": start, "doc": doc, "steps": steps}
     loaded = {}
     with warnings.catch_warnings():
@@ -233,6 +240,26 @@ def doc_history(rng, out, k):
                 elif st == "create_view":
                     nviews += 1
                     cas.create_view("n%d" % nviews).sofa_string = "t" * 30
+                elif st == "force_next":
+                    # a structure pinned (keep_id) to the id the generator will hand out next, plus a structure
+                    # that is only referenced and gets its id during serialisation: a forced duplicate
+                    nxt = cas._xmi_id_generator._next_id
+                    tsc = cas.typesystem
+                    T = tsc.get_type("uima.tcas.Annotation")
+                    holder_t = tsc.get_type("x.Holder") if tsc.contains_type("x.Holder") else None
+                    if holder_t is None:
+                        holder_t = tsc.create_type("x.Holder")
+                        tsc.create_feature(holder_t, "ref", "uima.tcas.Annotation")
+                    v.add(T(begin=0, end=1, xmiID=nxt))
+                    v.add(holder_t(begin=0, end=2, xmiID=nxt + 1000, ref=T(begin=0, end=3, sofa=v.get_sofa())))
+                    for fmt in ("xmi", "json"):
+                        try:
+                            (cas.to_xmi if fmt == "xmi" else cas.to_json)()
+                        except ValueError:
+                            out.count("forced-duplicate-reported")
+                            continue
+                        out.oracle_failures.append({"scenario": sc, "step": si, "what": fmt + ": a structure pinned to the id the generator hands out next and a structure receiving that id during serialisation were written out instead of being reported"})
+                    return
                 elif st == "force":
                     # explicitly force two structures onto one id: must be reported when serialising
                     a, b = A(begin=0, end=1, xmiID=4242), A(begin=0, end=2, xmiID=4242)
